@@ -72,6 +72,64 @@ def neigh_block(args):
     return args, n, bad
 
 
+def add_cells(_):
+    """Posterior update (add_and_update_gp) on every small configuration: a log of 3 points under specified noise, every non-empty
+    subset of them as the GP's current training set, and a new evaluation at each logged point (a repeat: in the training set or
+    not) or at a new point.  Afterwards the GP must hold exactly one pair for that input and it must be the log's own record
+    (merged value, logged SD squared); every other pair is unchanged."""
+    import gpyreg as gpr
+    from pybads.bads.gaussian_process_train import add_and_update_gp
+    from pybads.function_logger import FunctionLogger
+
+    bad = {}
+    n = 0
+    pts = [0.0, 1.0, 2.0]
+    for D in (1, 2):
+        for sub in itertools.chain.from_iterable(itertools.combinations(range(3), r) for r in (1, 2, 3)):
+            for xn in (0.0, 1.0, 2.0, 3.0):
+                for sdn in (0.1, 0.5):
+                    n += 1
+                    hold = {}
+
+                    def f(x):
+                        return hold["v"], hold["s"]
+
+                    fl = FunctionLogger(f, D, True, 2)
+                    mk = lambda v: np.full(D, v) if D == 1 else np.array([v, 0.5])
+                    for i, p_ in enumerate(pts):
+                        hold["v"], hold["s"] = 1.0 + i, 0.5
+                        fl(mk(p_))
+                    gp = gpr.GP(D=D, covariance=gpr.covariance_functions.SquaredExponential(), mean=gpr.mean_functions.ConstantMean(),
+                                noise=gpr.noise_functions.GaussianNoise(constant_add=True, user_provided_add=True))
+                    idx = list(sub)
+                    gp.X = fl.X[idx].copy()
+                    gp.y = fl.Y[idx].copy()
+                    gp.s2 = fl.S[idx] ** 2
+                    gp.set_hyperparameters(np.array([[0.0] * D + [0.0, -3.0, 2.0]]))
+                    before = {tuple(r): (float(gp.y[j, 0]), float(gp.s2[j, 0])) for j, r in enumerate(gp.X)}
+                    hold["v"], hold["s"] = 7.0, sdn
+                    y, sd, _ = fl(mk(xn))
+                    try:
+                        g = add_and_update_gp(fl, gp, mk(xn), y, sd, {"specify_target_noise": True})
+                    except Exception as e:  # noqa
+                        bad.setdefault("add/exception/%s" % type(e).__name__, (D, sub, xn, sdn, repr(e)[:60]))
+                        continue
+                    rows = [j for j in range(g.X.shape[0]) if np.array_equal(g.X[j], mk(xn))]
+                    li = [j for j in range(fl.Xn + 1) if np.array_equal(fl.X[j], mk(xn))][0]
+                    where = "in-training-set" if tuple(mk(xn)) in before else ("logged-elsewhere" if xn < 3.0 else "new-point")
+                    if len(rows) != 1:
+                        bad.setdefault("add/pair-count/%s" % where, (D, sub, xn, sdn, len(rows)))
+                        continue
+                    if float(g.y[rows[0], 0]) != float(fl.Y[li, 0]):
+                        bad.setdefault("add/value-not-logged/%s" % where, (D, sub, xn, sdn, float(g.y[rows[0], 0]), float(fl.Y[li, 0])))
+                    if not np.isclose(float(np.ravel(g.s2)[rows[0]]), float(fl.S[li, 0]) ** 2, rtol=1e-12, atol=0):
+                        bad.setdefault("add/s2-not-logged-sd-squared/%s" % where, (D, sub, xn, sdn, float(np.ravel(g.s2)[rows[0]]), float(fl.S[li, 0]) ** 2))
+                    for j, r in enumerate(g.X):
+                        if j != rows[0] and before.get(tuple(r)) != (float(g.y[j, 0]), float(np.ravel(g.s2)[j])):
+                            bad.setdefault("add/other-pair-changed/%s" % where, (D, sub, xn, sdn))
+    return n, bad
+
+
 def neigh_cfgs(quick):
     out = []
     for D in (1, 2):
@@ -85,6 +143,9 @@ def neigh_cfgs(quick):
 
 
 def replay(case, key):
+    if isinstance(case, dict) and case.get("kind") == "addcells":
+        _, bad = add_cells(0)
+        return any(("C15/" + k) == key for k in bad)
     if isinstance(case, dict) and case.get("kind") == "neigh":
         _, n, bad = neigh_block(tuple(case["args"]))
         return any(("C15/" + k) == key for k in bad)
@@ -102,6 +163,12 @@ def run(ctx):
         for k, d in bad.items():
             rep.violation("nearest-neighbour training-set selection violates the statement", k, d, dict(kind="neigh", args=list(args)))
     rep.set("neighbour_cells", total)
+    from ..common import pool
+    na, badd = pool().apply(add_cells, (0,))
+    for k, d in badd.items():
+        rep.violation("posterior update does not leave the GP holding the log's own record of the point", k, d, dict(kind="addcells"))
+    rep.set("posterior_update_cells", na)
+    total += na
     rep.sample(dict(neighbour_block=dict(D=2, lattice="3x3", logs="all subsets of <= 4 (quick) / 5 points in two orders", incumbents="all lattice points", len_scale="vector (0.5, 2)", n_train_min=2, n_train_max=4, buffer=1, radius=0.6)))
     ng = gate([job(2, "lin", "spec", "sphere_corner", seeds[0], 70)])
     sink = E1Sink(rep, PID)
